@@ -127,6 +127,52 @@ PROPS["C17"] = dict(
 )
 
 
+PROPS["C06"] = dict(
+    level="exploration",
+    rule=("all 1092 flag words over {plain, oneway, more} of length 1..6, each with several conforming reply scripts "
+          "(all-success with the maximum number of continuing replies, all-error, seeded random: success / declared "
+          "error / k=0..3 continuing replies then final success or error), 0..2 trailing frames of a later exchange "
+          "(in the same burst or delivered after the stream ended) and chunkings of the reply bytes (whole, one frame "
+          "per read, random cuts, one byte per read); every reply carries a unique tag; distinct = hash of (word, "
+          "script, trailing, cuts, delivery mode)"),
+    oracle=("exactly one write holding all calls in chain order, byte-equal to serde_json's encodings; items yielded == owed "
+            "replies in order, then None, without a transport poll beyond the last owed reply (the executor sees a stall "
+            "if the stream waits); a chain owing nothing makes zero read polls; afterwards plain receive_reply returns the "
+            "trailing frames intact and in order"),
+    assumptions=["chunks never end inside a trailing frame (that would only delay, see DESIGN C06 false-alarm guard)"],
+    floor_quick=10_000, floor_thorough=100_000,
+    exhaustive_possible=False,
+    steps=[
+        dict(layer="native", monitor="c06", shards_quick=4, shards_thorough=16),
+        dict(layer="miri", monitor="c06", shards_quick=8, shards_thorough=16),
+        dict(layer="asan", monitor="c06", shards_thorough=8, tier="thorough"),
+    ],
+)
+
+PROPS["C11"] = dict(
+    level="exploration",
+    rule=("reply sequences of 2..6 replies (success / error / continuing; text lengths 6..2000 so that some force buffer "
+          "growth and reallocation) obtained through a chain or a proxy #[zlink(more)] stream while EVERY earlier item is "
+          "kept alive; group 'same': the buffer is pre-grown so the whole burst arrives in one read; group 'separate': "
+          "later replies arrive in later reads; after each next() every held item is re-read and compared with an owned "
+          "copy; cases are classified by what was observed (did the transport deliver bytes while items were held), not "
+          "by intention; distinct = hash of (sizes, kinds, delivery, seed)"),
+    oracle=("native: held text == copy taken when yielded; ASan: no heap-use-after-free report; Miri: no Stacked-Borrows / "
+            "use-after-free report. Same-read delivery must be clean under all three; separate-read delivery is the "
+            "recorded known finding"),
+    assumptions=["Miri's Stacked Borrows model is the aliasing model", "a sanitizer report is attributed by its first frame under /repo"],
+    floor_quick=4_000, floor_thorough=100_000,
+    steps=[
+        dict(layer="native", monitor="c11", tag="same", extra=["--group", "same"], shards_quick=2, shards_thorough=8),
+        dict(layer="native", monitor="c11", tag="separate", extra=["--group", "separate"], shards_quick=2, shards_thorough=8),
+        dict(layer="miri", monitor="c11", tag="same", extra=["--group", "same"], shards_quick=6, shards_thorough=16),
+        dict(layer="miri", monitor="c11", tag="separate", extra=["--group", "separate"], shards_quick=1, shards_thorough=2, expect_dies=True),
+        dict(layer="asan", monitor="c11", tag="same", extra=["--group", "same"], shards_quick=2, shards_thorough=8),
+        dict(layer="asan", monitor="c11", tag="separate", extra=["--group", "separate"], shards_quick=1, shards_thorough=4, expect_dies=True),
+    ],
+)
+
+
 LEVEL_TEXT = {}
 
 def _na():
